@@ -176,7 +176,8 @@ func (p *wat2wasmWorker) buildImportSection() error {
 		case token.TABLE:
 			spec.Type = wasm.ExternTypeTable
 			spec.DescTable = &wasm.Table{
-				Min: uint32(x.Table.Size),
+				Min:  uint32(x.Table.Size),
+				Type: wasm.RefTypeFuncref,
 			}
 			if x.Table.MaxSize != 0 {
 				spec.DescTable.Max = new(uint32)
